@@ -24,6 +24,7 @@ def run(ctx: Ctx) -> list[Ob]:
     obs += r12b.pattern_entry_subclasses(ctx)
     obs += r11.r11k(ctx)
     obs += r11.r11l(ctx)
+    obs += r3.r3g(ctx) + r3.r3l(ctx) + r3.r3m(ctx)
     return obs
 
 
@@ -46,8 +47,9 @@ SPEC = PropSpec(
         " R5f: TorchScaledSigmoidParameter.forward, evaluated as a polynomial in vmin, vmax and S = sigmoid(x), is affine in S with value vmin at S = 0 and vmax at S = 1. R3i: in every config / fold_settings / params of a torch-side module an optional hyper-parameter is included under a None-test, never under a bare truthiness test (a bound of exactly 0.0 would be dropped when the folder / optimiser rebuilds the module from its config). R3j: every value a torch-side config returns is hashable (no list display / list(..) / Tensor.tolist(), directly or through a property): the folder uses (type, *fold_settings) with fold_settings = config.items() as a dictionary key. R12c: no strict subclass of a class named by an optimisation pattern's entries() redefines an evaluation method -- the matchers test isinstance, so such a subclass is rewritten by an identity that holds for its parent only."
         " R11k: any hand-written exp(x - max(x)) in a torch-side forward makes the shift finite first (an all -inf row is log 0, not nan), as the semiring reductions do."
         ' R11l: no log-likelihood multiplies an input-derived factor (a count x, n - x) by the unclamped logarithm of a parameter-derived probability: at the in-support point where the factor is 0 and the probability has rounded to 0 / 1 (a saturated sigmoid) that is 0 * -inf = nan; torch.xlogy / xlog1py or a clamp (as torch.distributions does) is required.'
+        " R3g / R3l / R3m (the address book of a folded parameter graph is built by the same functions as the layers'): an index-free or slice form replaces a gather only under an element-by-element comparison of the cumulative index with a range bounded by the sources' fold counts (a test of fixed positions -- endpoints and length -- is satisfied by permuted and repeating indices); offsets are exclusive prefix sums of num_folds; fold indices are never re-ordered."
     ),
     not_decided="the mathematical content of each operator (numerical).",
     run=run,
-    floors={"R3j": 40, "R12c": 8, "R3i": 4, "R5d": 2, "R4g": 3, "R5c": 2, "R4l": 60, "R4p": 80, "R1a": 28, "R1b": 28, "R1c": 100, "R3a": 60, "R3f": 60, "R5a": 9, "R5b": 12, "R4a": 100},
+    floors={"R3g": 2, "R3l": 2, "R3m": 8, "R3j": 40, "R12c": 8, "R3i": 4, "R5d": 2, "R4g": 3, "R5c": 2, "R4l": 60, "R4p": 80, "R1a": 28, "R1b": 28, "R1c": 100, "R3a": 60, "R3f": 60, "R5a": 9, "R5b": 12, "R4a": 100},
 )
